@@ -261,7 +261,13 @@ def main():
                 # abnormal termination (abort, stack overflow, sanitizer report): re-run once
                 r2 = run_one_again(r, env)
                 sig = abnormal_signature(tail, r["rc"], layer)
-                if r2 is not None and r2 != 0:
+                import re as _re
+                esc = _re.search(r"escaped-panic at (\S+): ([^\n]*)", tail)
+                if esc and (esc.group(1).startswith("src/") or "/verif/harness/" in esc.group(1)):
+                    # a panic in the harness's own code (monitor, model, rendering) is a harness error:
+                    # inconclusive, never a violation
+                    inconclusive.append(f"harness-panic layer={layer} shard={r['shard']} at {esc.group(1)}: {esc.group(2)[:160]}")
+                elif r2 is not None and r2 != 0:
                     hard_violations.append(dict(rule="abnormal-exit", signature=sig, layer=layer, shard=r["shard"],
                                                 detail=f"rc={r['rc']} rerun_rc={r2}\n{tail}",
                                                 replay=dict(cmd=r["cmd"], stderr_tail=tail)))
